@@ -166,6 +166,14 @@ def named_families():
     fams['str:escapes'] = (lambda n: '\n' * (n * 50), 4)
     fams['str:quotes'] = (lambda n: "'\"" * (n * 50), 4)
     fams['bytes:words'] = (lambda n: b'ab ' * (n * 50), 4)
+    # character classes a splitter may treat specially: combining marks, zero-width and astral characters, blanks
+    zalgo = 'e' + '\u0301\u0323' * 7
+    fams['str:combining-runs'] = (lambda n: zalgo * (n * 10), 4)
+    fams['str:combining-only'] = (lambda n: '\u0301' * (n * 60), 4)
+    fams['str:combining-nested-until-no-width'] = (lambda n: chain(W['list'], n, zalgo * 6), 4)
+    fams['str:combining-words-nested-in-dicts'] = (lambda n: chain(W['dictval'], n, (zalgo + ' ') * 5), 4)
+    fams['str:zero-width-and-astral'] = (lambda n: 'a\u200d\U0001f600\u200b' * (n * 25), 4)
+    fams['str:blanks'] = (lambda n: ' \t ' * (n * 40), 4)
     fams['str:nested-until-no-width'] = (lambda n: chain(W['list'], n, 'x y ' * 10), 4)
     fams['str:nested-in-dicts'] = (lambda n: chain(W['dictval'], n, 'word ' * 12), 4)
     fams['comment:long-text'] = (lambda n: [__import__('prettyprinter').comment(1, 'w ' * (n * 20))], 4)
